@@ -126,6 +126,12 @@ static void reb_simulation_add_local(struct reb_simulation* const r, struct reb_
 		}
 	    }
 	    
+	    // The new row and column hold whatever the old (differently indexed) matrix had there: no close encounter yet.
+	    for (unsigned int i = 0; i < r->N; i++){
+		ri_trace->current_Ks[i*r->N+old_N] = 0;
+		ri_trace->current_Ks[old_N*r->N+i] = 0;
+	    }
+
 	    // add in new particle, we want it to interact with all currently interacting particles
 	    // exclude star
 	    for (int i = 1; i < ri_trace->encounter_N; i++){
